@@ -1349,7 +1349,9 @@ class Atoms:
         self.assert_arrays_are_consistent_sizes()
 
     def pop(self, pos=-1):
-        del(self, pos)
+        if pos < 0:
+            pos += len(self)
+        del(self[[pos]])
 
     def __getitem__(self, i):
         idx = np.array(i, ndmin=1)
